@@ -679,7 +679,7 @@ func (o *baseObject) _defineOwnProperty(name unistring.String, existingValue Val
 				goto Reject
 			}
 		}
-		if existing.accessor && descr.Value != nil || !existing.accessor && (getterObj != nil || setterObj != nil) {
+		if existing.accessor && (descr.Value != nil || descr.Writable != FLAG_NOT_SET) || !existing.accessor && (descr.Getter != nil || descr.Setter != nil) {
 			if !existing.configurable {
 				goto Reject
 			}
@@ -719,12 +719,12 @@ func (o *baseObject) _defineOwnProperty(name unistring.String, existingValue Val
 
 	if descr.Value != nil {
 		existing.value = descr.Value
-		existing.getterFunc = nil
-		existing.setterFunc = nil
 	}
 
 	if descr.Value != nil || descr.Writable != FLAG_NOT_SET {
 		existing.accessor = false
+		existing.getterFunc = nil
+		existing.setterFunc = nil
 	}
 
 	if descr.Getter != nil {
